@@ -329,7 +329,7 @@ func c04units(tier string) []mc.Unit {
 	// structured sweep: every length 1..200 and geometrically beyond x the shapes of dnaShapes x all flag combinations
 	for part := 0; part < 8; part++ {
 		part := part
-		lens := sweepLengths(1, tier2(tier, 200, 400), tier2(tier, 20000, 100000))
+		lens := sweepLengths(1, tier2(tier, 200, 400), tier2(tier, 75000, 200000))
 		us = append(us, mc.Unit{Name: fmt.Sprintf("sweep/part=%d", part), Weight: 60, Run: func(r *mc.Recorder) {
 			var cnt int64
 			for i, n := range lens {
@@ -339,6 +339,9 @@ func c04units(tier string) []mc.Unit {
 				shapes := dnaShapes(n)
 				if n > 3000 && len(shapes) > 10 {
 					shapes = append(shapes[:4:4], shapes[len(shapes)-6:]...)
+				}
+				if n > 20000 {
+					shapes = shapes[len(shapes)-4:]
 				}
 				for _, sh := range shapes {
 					for _, f := range shAllFlags {
@@ -358,6 +361,12 @@ func c04units(tier string) []mc.Unit {
 									variants[fmt.Sprintf("rotation %d", k)] = in[k:] + in[:k]
 								}
 							}
+							// the molecule written from its own least rotation (what RotateSequence returns)
+							canon := shMinRotFast(sh.s)
+							if f.typ == "RNA" {
+								canon = toU(canon)
+							}
+							variants["rotation to the canonical start"] = canon
 						}
 						if f.ds {
 							rc := shRC(sh.s)
@@ -386,6 +395,54 @@ func c04units(tier string) []mc.Unit {
 			r.Bound("sweep", fmt.Sprintf("%d lengths (every length to %d, then +7%% steps to %d) x about 20 shapes x 8 declarations x rotation, strand, case", len(lens), tier2(tier, 200, 400), lens[len(lens)-1]))
 		}})
 	}
+	// proteins: a circular protein hashes the same from every rotation and in either case; all words of 1..3 letters
+	// over a 7-letter subset that includes the stop symbol, and longer pseudo-random words with '*' at either end
+	us = append(us, mc.Unit{Name: "protein-rotations", Weight: 30, Run: func(r *mc.Recorder) {
+		var cnt int64
+		one := func(s string) {
+			h0, err := seqhash.Hash(s, "PROTEIN", true, false)
+			if err != nil {
+				return // judged by C05 (accepted alphabet)
+			}
+			variants := map[string]string{"lower case": strings.ToLower(s)}
+			for k := 1; k < len(s); k++ {
+				if len(s) > 12 && k > 3 && k < len(s)-3 {
+					continue
+				}
+				variants[fmt.Sprintf("rotation %d", k)] = s[k:] + s[:k]
+			}
+			for what, v := range variants {
+				var h string
+				if p := catch(func() { h, err = seqhash.Hash(v, "PROTEIN", true, false) }); p != "" || err != nil || h != h0 {
+					r.Failf("protein-"+strings.Fields(what)[0], fmt.Sprintf("%q, %s, circular protein", s, what), nil, h0, fmt.Sprint(h, err, p))
+				}
+				cnt++
+			}
+			// linear: case only
+			hl, err := seqhash.Hash(s, "PROTEIN", false, false)
+			if err == nil {
+				if h, err2 := seqhash.Hash(strings.ToLower(s), "PROTEIN", false, false); err2 != nil || h != hl {
+					r.Failf("protein-lower", fmt.Sprintf("%q, lower case, linear protein", s), nil, hl, fmt.Sprint(h, err2))
+				}
+				cnt++
+			}
+		}
+		for n := 1; n <= 4; n++ {
+			enumStrings("MKV*ACU", n, func(b []byte) { one(string(b)) })
+		}
+		for _, n := range sweepLengths(5, 80, 3000) {
+			w := lcgString(protAlpha[:22], n, uint32(n))
+			one(w)
+			one(w + "*")
+			one("*" + w)
+			one(w[:n/2] + "*" + w[n/2:])
+		}
+		r.Eval(cnt)
+		r.AddStates(cnt)
+		r.AddTransitions(cnt)
+		r.AddNontrivial(cnt)
+		r.Bound("protein-rotations", "all words of 1..4 letters over {M,K,V,*,A,C,U}; pseudo-random words of every length 5..80 (then +7% steps to 3000) with the stop symbol at the end, the start, the middle or absent")
+	}})
 	us = append(us, historyUnit("api-histories", shMenu(), 3))
 	// RNA spelling: Hash(U-spelling, RNA) == Hash(T-spelling, DNA) except the type letter
 	rnaMax := tier2(tier, 7, 9)
@@ -639,12 +696,14 @@ func c05units(tier string) []mc.Unit {
 						if f.typ == "RNA" {
 							in = toU(s)
 						}
-						var h string
-						var err error
-						if p := catch(func() { h, err = seqhash.Hash(in, f.typ, f.circ, f.ds) }); p != "" || err != nil || h != want {
-							r.Failf("form", fmt.Sprintf("%s, %d bases %s", sh.shape, n, f), nil, want, fmt.Sprint(h, err, p))
+						for _, spelled := range []string{in, strings.ToLower(in)} {
+							var h string
+							var err error
+							if p := catch(func() { h, err = seqhash.Hash(spelled, f.typ, f.circ, f.ds) }); p != "" || err != nil || h != want {
+								r.Failf("form", fmt.Sprintf("%s, %d bases %s (upper case=%v)", sh.shape, n, f, spelled == in), nil, want, fmt.Sprint(h, err, p))
+							}
+							cnt++
 						}
-						cnt++
 					}
 				}
 			}
